@@ -178,12 +178,37 @@ def _worker_init(domain_mod, prop):
         _WORKER['dom'].worker_init()
 
 
+CASE_TIMEOUT = 30       # seconds of wall clock for ONE case on the implementation (the slowest clean case, a 120 001-line wrap text, takes ~2 s)
+
+
+class CaseTimeout(BaseException):
+    pass
+
+
+def _alarm(signum, frame):
+    raise CaseTimeout()
+
+
 def _worker_run(chunk):
+    import signal
     dom = _WORKER['dom']; prop = _WORKER['prop']
     out = []
+    signal.signal(signal.SIGALRM, _alarm)
+    timeouts = 0
     for case in chunk:
+        if timeouts >= 3:          # this chunk has shown the non-termination three times: do not spend the run on waiting
+            out.append(('RECURSION', [], {'skipped-after-timeouts': 1})); continue
         try:
-            out.append(dom.run(case, prop))
+            signal.alarm(CASE_TIMEOUT)
+            try:
+                r = dom.run(case, prop)
+            finally:
+                signal.alarm(0)
+            out.append(r)
+        except CaseTimeout:
+            timeouts += 1
+            # the implementation did not return: whatever the property says about the result of this call cannot hold
+            out.append(('TIMEOUT', ['no-result| the implementation did not return within %d s on this case (non-termination)' % CASE_TIMEOUT], {'outcome:timeout': 1}))
         except RecursionError:
             out.append(('RECURSION', [], {}))
         except Exception as e:  # harness bug: report as infra, never as a verdict
